@@ -120,6 +120,14 @@ class BoundMethod:
     name: str
 
 
+@dataclass
+class SuperProxy:
+    """super() inside a method of ``cls`` (module ``module``) called on ``obj``: attribute lookup starts at the first base class"""
+    obj: object
+    module: str
+    cls: str
+
+
 @dataclass(frozen=True)
 class External:
     dotted: str
@@ -413,6 +421,29 @@ class Interp:
             if key in self.registry:
                 return self.registry[key](self, f.self_obj, args, kwargs)
             return self.call_closure(f, args, kwargs)
+        if isinstance(f, BoundMethod) and isinstance(f.obj, SuperProxy):
+            sp_ = f.obj
+            mi = source.load_module(sp_.module)
+            fi = None
+            for b in mi.bases.get(sp_.cls, []):
+                b = b.split(".")[-1]
+                if b in mi.classes:
+                    fi = source.find_method(sp_.module, b, f.name)
+                else:
+                    dotted = mi.imports.get(b)
+                    if dotted and dotted.startswith("WallGo."):
+                        parts = dotted.split(".")
+                        fi = source.find_method(".".join(parts[1:-1]), parts[-1], f.name)
+                if fi is not None:
+                    break
+            if fi is None:
+                raise Undecided(f"super().{f.name} not found above {sp_.cls}")
+            key = f"{fi.qualname.split('.')[0]}.{f.name}"
+            if key in self.registry:
+                return self.registry[key](self, sp_.obj, args, kwargs)
+            self.inlined.add(f"{fi.module}.{fi.qualname}")
+            clo = Closure(fi.node, self.module_env(fi.module), fi.module, fi.qualname, self_obj=sp_.obj)
+            return self.call_closure(clo, args, kwargs)
         if isinstance(f, BoundMethod):
             return self.call_method(f.obj, f.name, args, kwargs, node)
         if isinstance(f, External):
@@ -502,6 +533,8 @@ class Interp:
 
     # ---- attribute access
     def getattr(self, v, name, node=None):
+        if isinstance(v, SuperProxy):
+            return BoundMethod(v, name)
         if isinstance(v, SymObj):
             if name in v.attrs:
                 return v.attrs[name]
@@ -1053,6 +1086,15 @@ class Interp:
     def e_Call(self, e, env):
         if isinstance(e.func, ast.Name) and e.func.id == "locals" and not e.args:
             return dict(env.vars)
+        if isinstance(e.func, ast.Name) and e.func.id == "super" and not e.args:
+            cls = self._enclosing_class()
+            try:
+                selfobj = env.lookup("self")
+            except KeyError:
+                selfobj = None
+            if cls and isinstance(selfobj, SymObj):
+                return SuperProxy(selfobj, env.module, cls)
+            raise Undecided("super() outside a method")
         f = self.eval(e.func, env)
         args = []
         for a in e.args:
